@@ -43,7 +43,10 @@ m = dict(
                   serves_properties=[c["property_id"] for c in checks],
                   kind_free_text="Kani 0.68 proof harnesses (harness/src/*.rs, path-dependent on /repo) decided by CBMC 6.11 + CaDiCaL; driver/pvdriver.py orchestrates, replays counterexamples natively, writes evidence")],
     checks=checks,
-    notes="All checks are solver-based (bounded model checking of the real compiled code). Exit 2 = inconclusive (timeout/OOM/vacuous/non-reproducing), never reported as success. See DESIGN.md.",
+    notes="All checks are solver-based (bounded model checking of the real compiled code). Exit 2 = inconclusive (timeout/OOM/vacuous/"
+          "non-reproducing/internal error), never reported as success. Genuine defects: fix: commits b3006e2 (C08) and 97565eb (C07/C01/C02) in "
+          "/repo; known findings KF-C05-1 and KF-C20-1 in known_findings.json (K-tier twin harnesses print KNOWN-FINDING). Seeded changes and "
+          "which checks catch them: seeded/*/meta.json and DESIGN.md section 6. See DESIGN.md.",
     not_applicable=na,
 )
 json.dump(m, open(os.path.join(os.path.dirname(os.path.dirname(os.path.abspath(__file__))), "MANIFEST.json"), "w"), indent=1)
